@@ -242,7 +242,11 @@ RRhs == { KI(5), vb, Sum2(vb, vi), N("Product", << KI(2), va >>), Call(vf, << vb
           IfE(Cmp(vi, "<", KI(0)), va, vb), Call(Call(vf, << va >>), << vi >>),
           B("Power", va, KI(2)), CallKw(vf, << vb >>, << KwArg("k", vi) >>) }
 RCond == { NoneE, TrueE, Cmp(vi, "<", KI(3)), Cmp(vb, "==", va), Call(vf, << vi >>),
-           N("LogAnd", << Cmp(vx, ">", KI(0)), vb >>) }
+           N("LogAnd", << Cmp(vx, ">", KI(0)), vb >>),
+           \* round 8: conditions that are FALSY as Python objects (a literal False / 0, a product
+           \* with a zero factor - the only place where i or vx occurs): a condition is data,
+           \* whatever a truth test says about it
+           K(BoolV(FALSE)), KI(0), N("Product", << KI(0), vi >>), B("Quotient", KI(0), vx) }
 RStmts == {NopS("s", << >>)}
           \cup {(IF c.t = "None" THEN AssignS("s", << >>, l, r) ELSE CondAssignS("s", << >>, l, r, c)) :
                    l \in RLhs, r \in RRhs, c \in RCond}
